@@ -421,12 +421,92 @@ def store_before(spec, path, inputs, ref):
     return dict(inputs)
 
 
+def exit_leg(res, rng, n):
+    """blocks whose body leaves the program: `with A as Else:` whose body
+    ends in a nested `with B:` that ends in exit(), followed by `with Else:`
+    and by code behind the construct; all combinations of A and B are run in
+    the kernel. Markers: body of A, body of B, Else of A, behind."""
+    from .. import prog
+    from ebpfcat.arraymap import ArrayMap
+    from ebpfcat.xdp import XDP
+    for _ in range(n):
+        fa, fb = rng.choice("IiQqHh"), rng.choice("IiQqHh")
+        ka, kb = rng.randint(-3, 40), rng.randint(-3, 40)
+        opa, opb = rng.choice(CMP), rng.choice(CMP)
+        shape = rng.choice(["nested", "nested", "andor", "double"])
+        m = ArrayMap()
+        ns = {"license": "GPL", "m": m, "a": m.globalVar(fa),
+              "b": m.globalVar(fb), "mk": m.globalVar("B")}
+        ops = {"==": lambda x, y: x == y, "!=": lambda x, y: x != y,
+               "<": lambda x, y: x < y, "<=": lambda x, y: x <= y,
+               ">": lambda x, y: x > y, ">=": lambda x, y: x >= y}
+
+        def program(self):
+            e = self
+            ca = ops[opa](e.a, ka)
+            if shape == "andor":
+                ca = ca & (e.a != ka + 1000)
+            with ca as Else:
+                e.mk = e.mk | 1
+                with ops[opb](e.b, kb):
+                    e.mk = e.mk | 2
+                    e.r0 = 2
+                    e.exit()
+                if shape == "double":
+                    with ops[opb](e.b, kb):
+                        e.mk = e.mk | 16
+                        e.r0 = 2
+                        e.exit()
+            with Else:
+                e.mk = e.mk | 4
+            e.mk = e.mk | 8
+            e.r0 = 2
+            e.exit()
+        ns["program"] = program
+        desc = dict(exit_leg=True, a=[fa, opa, ka], b=[fb, opb, kb],
+                    shape=shape)
+        with kern.session() as sess:
+            try:
+                e = type("VfExit", (XDP,), ns)()
+                ld = prog.Loaded(e, sess)
+                ld.load()
+            except OSError as ex:
+                res.count("exit_leg_load_failed (C05's business)")
+                continue
+            try:
+                for va in (ka - 1, ka, ka + 1):
+                    for vb in (kb - 1, kb, kb + 1):
+                        if fa.isupper() and va < 0 or \
+                                fb.isupper() and vb < 0:
+                            continue
+                        e.a, e.b, e.mk = va, vb, 0
+                        ld.run_k(bytes(64))
+                        ta, tb = ops[opa](va, ka), ops[opb](vb, kb)
+                        want = (1 | (2 if tb else 8)) if ta else (4 | 8)
+                        res.case([desc, va, vb], nontrivial=True)
+                        res.count("exit_leg_runs")
+                        if e.mk != want:
+                            res.violation(
+                                "unexplained:cond exit-in-body",
+                                f"a={va} b={vb}: blocks run (1 body, 2 "
+                                f"nested body that exits, 4 Else, 8 behind) "
+                                f"= {e.mk:#06b}, expected {want:#06b} "
+                                f"[{desc}]", case=desc)
+                            break
+                    else:
+                        continue
+                    break
+            finally:
+                ld.close()
+
+
 def run_shard(params):
     res = Result()
     rng = random.Random(params["seed"] * 100019 + params["shard"])
     for i in range(params["n"]):
         case = gen_case(rng, params["depth"])
         check_case(case, res, use_v=(i % 3 == 0))
+    exit_leg(res, rng, max(4, params["n"] // 25))
     return res
 
 
